@@ -30,7 +30,7 @@ class C03(Prop):
     id = "C03"
     theorems = ["lastSel_some_iff", "lastSel_get", "put_frame", "put_writes", "put_shape", "selCoord_expand", "get_put",
                 "put_labels_unchanged", "put_kind", "maybeCast_table_agrees", "maybeCast_table_lossless",
-                "maybeCast_table_covers_numeric_object"]
+                "maybeCast_table_covers_numeric_object", "putBool_spec", "putBool_shape_error"]
     rule = ("arrays of rank 0-4 (bool/int/float/object values) and every index form of C01/C02 (label and position "
             "scalars, lists with repeats, masks, slices, dicts by name/position, axis=, Ellipsis, full N-d boolean masks); "
             "scalar, 0-d and broadcastable array right-hand sides of kind bool/int/float/str; spellings a[idx]=v, "
